@@ -155,3 +155,10 @@ Fixpoint run_scans (scans : list (Z * Z)) (st : pwork) : pwork * bool :=
     | (st', false) => (st', false)
     end
   end.
+
+(* ---- JBIG2: the work cell ---- *)
+
+(* bitmapPool.chargeWork(pixels) before each per-pixel loop, against a second cell of
+   workLimit(rawLen) units that is never credited back: a region is a site that "allocates"
+   as many units of work as it charged *)
+Definition work_site (pixels : Z) : site := Site pixels pixels.
